@@ -7,6 +7,7 @@ from . import real, sqlparse, sqlsem, e1, db as dbm, vals as V
 from .vals import Unsupported
 
 DB_PLACEHOLDER = '/tmp/logica_verif_c17_home.db'   # only ever opened by replays, under a fresh name
+DB_PLACEHOLDER2 = '/tmp/logica_verif_c17_store.db'  # a second attached database file
 
 
 class HistorySide:
@@ -46,7 +47,7 @@ class HistorySide:
     self.final_store = store
     if self.want[0] == 'table':
       # the table is looked for in the database *file* the program attaches
-      key = '%s::%s' % (DB_PLACEHOLDER, self.want[1].split('.')[-1])
+      key = '%s::%s' % (self.want[2] if len(self.want) > 2 else DB_PLACEHOLDER, self.want[1].split('.')[-1])
       if key not in store:
         raise TableMissing(self.want[1])
       rel = store[key]
@@ -60,7 +61,8 @@ class HistorySide:
     d = tempfile.mkdtemp(prefix='logica_verif_c17_')
     try:
       path = os.path.join(d, 'home.db')
-      text = self.text.replace(DB_PLACEHOLDER, path)
+      path2 = os.path.join(d, 'store.db')
+      text = self.text.replace(DB_PLACEHOLDER, path).replace(DB_PLACEHOLDER2, path2)
       con = sqlite3.connect(path)
       dbm.load_sqlite(con, schema, rows)
       con.close()
@@ -74,7 +76,7 @@ class HistorySide:
         finally:
           con.close()
       if self.want[0] == 'table':
-        con = sqlite3.connect(path)
+        con = sqlite3.connect(path2 if (len(self.want) > 2 and self.want[2] == DB_PLACEHOLDER2) else path)
         try:
           name = self.want[1].split('.')[-1]
           try:
